@@ -19,7 +19,27 @@ func (c *Ctx) composeOrder() ([]string, *ssa.Function) {
 		fn  *ssa.Function
 	}
 	var slots []slot
+	// the list may be a literal in ComposeAllEnabled or come from a parameterless helper of the package
+	// whose result is passed on to Compose (allFactories()...)
+	src := fn
 	for _, b := range fn.Blocks {
+		for _, ins := range b.Instrs {
+			call, ok := ins.(*ssa.Call)
+			if !ok {
+				continue
+			}
+			g := call.Call.StaticCallee()
+			if g == nil || g.Pkg != fn.Pkg || len(g.Params) != 0 || len(g.Blocks) == 0 || g.Signature.Results().Len() != 1 {
+				continue
+			}
+			if sl, ok := g.Signature.Results().At(0).Type().Underlying().(*types.Slice); ok {
+				if _, ok := sl.Elem().Underlying().(*types.Signature); ok {
+					src = g
+				}
+			}
+		}
+	}
+	for _, b := range src.Blocks {
 		for _, ins := range b.Instrs {
 			st, ok := ins.(*ssa.Store)
 			if !ok {
